@@ -197,7 +197,7 @@ def replay(name, inp):
         ok = r.start == a and r.step in (None, 1) and ((b > 0 and r.stop == b + 1) or (b == 0 and r.stop in (0, 1)))
         return {'reproduced': not ok, 'observed': repr(r), 'expected': f'slice({a}, {b + 1 if b > 0 else "0 or 1"})'}
     dims = [int(d) for d in inp['dims']]
-    if any(d < 0 or d > 50 for d in dims):
+    if any(d < 0 or d > (1200 if len(dims) == 1 else 50) for d in dims):
         return {'reproduced': False, 'note': 'dimension out of replay range'}
     size = int(np.prod(dims)) if dims else 1
     value = np.arange(size, dtype=float).reshape(dims)
@@ -211,10 +211,24 @@ def replay(name, inp):
         return {'reproduced': False, 'note': f'input rejected by the constructor: {e!r}'}
     if name.endswith('squeeze') or '::Dataset.squeeze::' in name or inp.get('op') == 'squeeze':
         before = {k: v.copy() for k, v in ds.bins.items()}
+        import logging
+        lg = logging.getLogger('valjean')
+        saved = (logging.root.manager.disable, lg.level, lg.propagate, list(lg.handlers))
+        if inp.get('logging') == 'DEBUG':
+            # the same call with debug messages switched on (and sent nowhere): what a method returns does not depend on the level of the logger
+            logging.disable(logging.NOTSET)
+            lg.setLevel(logging.DEBUG)
+            lg.propagate = False
+            lg.handlers = [logging.NullHandler()]
         try:
             r = ds.squeeze()
         except Exception as e:  # noqa
             return {'reproduced': True, 'observed': repr(e), 'expected': 'a squeezed dataset'}
+        finally:
+            logging.disable(saved[0])
+            lg.setLevel(saved[1])
+            lg.propagate = saved[2]
+            lg.handlers = saved[3]
         exp = OrderedDict((k, before[k]) for d, k in enumerate(before) if dims[d] != 1)
         ok = list(r.bins) == list(exp) and all(np.array_equal(r.bins[k], exp[k]) for k in exp) \
             and r.value.shape == tuple(d for d in dims if d != 1) and np.array_equal(r.value, value.squeeze())
@@ -266,6 +280,16 @@ def bounded(tier, seed):
                     if r['reproduced']:
                         fails.append({'input': inp, 'observed': r['observed'], 'expected': r['expected']})
     samples.append({'ndim': 1, 'dims': [3], 'nbins': [4], 'slices': [[-2, None]]})
+    # long dimensions (beyond one byte / beyond CPython's cached small integers): a few slices on 255 .. 300 and 1000 cells
+    for nd in (255, 256, 257, 258, 300, 1000):
+        for edges in (True, False):
+            for a, b in ((2, 5), (None, 3), (250, None), (-3, None), (100, 257), (-400, 2), (None, None), (256, 258)):
+                inp = {'ndim': 1, 'dims': [nd], 'nbins': [nd + 1 if edges else nd], 'slices': [[a, b]], 'tuple_index': bool(a and a % 2)}
+                r = replay('bounded', inp)
+                n += 1
+                distinct.add((nd, edges, a, b))
+                if r['reproduced'] and len(fails) < 40:
+                    fails.append({'input': inp, 'observed': r['observed'], 'expected': r['expected']})
     for how in ('np.int64', 'np.int32', 'np.intp', 'explicit unit step'):
         for nd in (1, 3):
             for edges in (True, False):
@@ -293,15 +317,18 @@ def bounded(tier, seed):
     for k in (1, 2, 3):
         for dims in itertools.product((1, 2, 3), repeat=k):
             for edges in itertools.product((0, 1), repeat=k):
-                inp = {'ndim': k, 'dims': list(dims), 'nbins': [d + e for d, e in zip(dims, edges)], 'op': 'squeeze'}
-                r = replay('squeeze', inp)
-                n += 1
-                distinct.add(('sq', dims, edges))
-                if r['reproduced']:
-                    fails.append({'input': inp, 'observed': r['observed'], 'expected': r['expected']})
+                for level in (None, 'DEBUG'):
+                    inp = {'ndim': k, 'dims': list(dims), 'nbins': [d + e for d, e in zip(dims, edges)], 'op': 'squeeze'}
+                    if level:
+                        inp['logging'] = level
+                    r = replay('squeeze', inp)
+                    n += 1
+                    distinct.add(('sq', dims, edges, level))
+                    if r['reproduced'] and len(fails) < 40:
+                        fails.append({'input': inp, 'observed': r['observed'], 'expected': r['expected']})
     samples.append({'ndim': 2, 'dims': [1, 3], 'nbins': [2, 3], 'op': 'squeeze'})
-    return {'name': 'slicing-and-squeeze-native', 'bound': '1-d: n<=3, start/stop in {None,-5..5}, edges|centres (exhaustive), also with the limits written as numpy integers (int64 / int32 / intp) and with an explicit unit step; '
-            f'2-d: {count2} seeded samples; squeeze: all shapes of rank<=3 with dims in 1..3 (exhaustive)',
+    return {'name': 'slicing-and-squeeze-native', 'bound': '1-d: n<=3, start/stop in {None,-5..5}, edges|centres (exhaustive), 8 slices on dimensions of 255 .. 300 and 1000 cells, also with the limits written as numpy integers (int64 / int32 / intp) and with an explicit unit step; '
+            f'2-d: {count2} seeded samples; squeeze: all shapes of rank<=3 with dims in 1..3 (exhaustive), with the logger at its default level and at DEBUG',
             'evaluations': n, 'distinct': len(distinct), 'failures': fails[:20], 'samples': samples}
 
 
@@ -328,6 +355,14 @@ def run_unit(unit, tier, seed, known):
     def rp(name, inp):
         if kind == 'squeeze':
             inp = dict(inp, op='squeeze')
+            first = replay(name, inp)
+            if first.get('reproduced'):
+                return first
+            # the counter-model does not say at which level the logger was: replay at DEBUG as well
+            second = replay(name, dict(inp, logging='DEBUG'))
+            if second.get('reproduced'):
+                second['input_found'] = dict(inp, logging='DEBUG')
+            return second if second.get('reproduced') else first
         return replay(name, inp)
     return {'functions': [prop.discharge(res, tier, ID, _concretise(k, tuple_index) if kind != 'squeeze' else _conc_squeeze(k), rp)]}
 
